@@ -241,6 +241,27 @@ theorem no_unrecognised : ∀ d ∈ descriptors, d.unrecognised = [] := by decid
     instances of their template — for EVERY kind (full strength: no kind is excluded any more) -/
 theorem all_kinds_agree : ∀ d ∈ descriptors, d.agree = true := by decide
 
+/-- the pieces of the round trip that are modelled by hand (`Types`, `AdditionalProperties`, the generic
+    `unmarshalStringMap(P)` / `deepCast` behind every named map type) are in the table, and their source is
+    still the text the model (`rtTypes`, `stepAddProps`, `entryStep`, `nullFix`) was written from; every named
+    map type's unmarshaller is an instance of `unmarshalStringMap(P)` -/
+theorem hand_modelled_pieces_unchanged :
+    (descriptors.filter (fun d => d.template == .special)).map (·.name) =
+      ["openapi3.Types", "openapi3.AdditionalProperties", "openapi3.unmarshalStringMapP",
+       "openapi3.unmarshalStringMap", "openapi3.deepCast"] ∧
+    (∀ d ∈ descriptors, (d.template = .namedMap ∨ d.template = .special) → d.uniform = true) := by decide
+
+/-- a named-map shape met in a field, directly or as the element of a list -/
+def namedMapShapeOf : Shape → Option Shape
+  | .pmap s => some (.pmap s)
+  | .list (.pmap s) => some (.pmap s)
+  | _ => none
+
+/-- every field whose shape is a named map is the shape of a named map type of the table -/
+theorem named_map_fields_in_table :
+    ∀ d ∈ descriptors, ∀ f ∈ d.fields, ∀ s, namedMapShapeOf f.shape = some s →
+      descriptors.any (fun r => r.template == .namedMap && r.valueShape == s) = true := by decide
+
 /-- kind names are unique, so that `findDesc` finds the row of the kind -/
 theorem kind_names_distinct : (descriptors.map (·.name)).Nodup := by decide
 
